@@ -79,6 +79,8 @@ def parse_out(line):
             r["vars"] = vs
         elif t.startswith("RUN="):
             r["run"] = [items(it, ",") for it in items(t[4:], ";")]
+        elif t.startswith("VALID="):
+            r["valid"] = t[6:]
         elif t == "TERM-EXN" or t == "TERM-OOB":
             r["term"] = t
     if "DOM" in w:
@@ -351,7 +353,19 @@ def judge_vars(t, got, rows=None):
 
 # ------------------------------------------------------------------ running
 def build():
-    return vv.build_harness("h_csv"), vv.ocaml_model("Csv")
+    """harness + model.  The C++ build cache under .build/ is shared by all checks and garbage-collected by count
+    (3 snapshots, 6 libraries): with many checks running against different worktrees at once, the snapshot or the
+    library disappears between the library build and the harness build/link.  That is not a property of the tree
+    under test, so the dataset-import checks keep their C++ build products in a sub-directory of their own (same
+    code path of vv, only the cache directory differs); the Coq/OCaml side keeps using the shared directory and lock."""
+    import os
+    old = vv.BUILD
+    vv.BUILD = os.path.join(old, "private-csv")
+    try:
+        h = vv.build_harness("h_csv")
+    finally:
+        vv.BUILD = old
+    return h, vv.ocaml_model("Csv")
 
 
 def run_pair(harness, model, hlines, mlines=None):
